@@ -3,6 +3,7 @@ import RV.C17.LemmasFresh
 import RV.C17.LemmasTrieHist
 import RV.C17.LemmasFail
 import RV.C17.LemmasSplit
+import RV.C17.LemmasCat
 /-
   C17 — property theorems (statements first, as `def … : Prop`, then the proofs).
 
@@ -147,7 +148,20 @@ def Statement_qname_fails_only_unsplittable : Prop :=
         (splitUri splitStartCats u = none ∧
           ((St.init.run ops).store.prefix u = none ∨ (St.init.run ops).store.prefix u = some [])))
 
+/-- `unicodedata.category` for ALL of Unicode.  The model's `category` (a descent in the generated search
+    tree `Tables.catTree`) equals, for every natural number, the linear reading `categorySpec` of the flat
+    table `Tables.catRuns` generated from the running Python's `unicodedata` (first code point and category
+    of every run); that table starts at code point 0 and consists of maximal runs in strictly increasing
+    order; every code point below `catLimit` = 0x110000 has one of the `catNames` (never `catUnknown`).
+    So `split_spec`, `split_uri_complete`, `is_ncname` … speak about every Python string, not a sample. -/
+def Statement_category_table : Prop :=
+  (∀ c, category c = categorySpec c) ∧ (∀ c, c < catLimit → category c < catUnknown) ∧
+  runsCanonical catRuns = true ∧ (catRuns.head?.map Prod.fst) = some 0 ∧ catNames.length = catUnknown
+
 /-! ### Proofs -/
+
+theorem category_table : Statement_category_table :=
+  ⟨category_eq_spec, category_known, catRuns_canonical, by decide +kernel, by decide⟩
 
 theorem bind_bijective : Statement_bind_bijective :=
   fun ops => (HInv.run ops HInv.init).store.bij
@@ -242,6 +256,11 @@ example : ((St.init.run exCollide).step (.serdoc false true [(nsE ++ [115], fals
     .doc [(sPv, nsE), (112 :: sPv, nsEa)] := by decide
 example : ((St.init.run exCollide).step (.serdoc false false [(iriX, true), (nsE ++ [115], false)])).2 =
     .doc [(sPv, nsEa), (112 :: sPv, nsE)] := by decide
+
+/-- categories of a few code points of different planes (é Ll, 中 Lo, U+1D7D8 𝟘 Nd, U+E0001 Cf, U+10FFFF Cn) -/
+example : (category 233, category 20013, category 120792, category 917505, category 1114111, category 1114112) =
+    (catNames.idxOf "Ll", catNames.idxOf "Lo", catNames.idxOf "Nd", catNames.idxOf "Cf", catNames.idxOf "Cn", catUnknown) := by
+  decide +kernel
 
 /-- `split_uri` on the three shapes: a hyphen before the name is left in the namespace; "abc" raises;
     slash-ab-slash-hyphen wraps round and splits after the first slash; an IRI ending in slash-hyphen
